@@ -524,8 +524,13 @@ func (l *Lexer) isAccountStart(ch byte) bool {
 	return l.isLetter(ch)
 }
 
+// isAccountStartRune: an account name may begin with any letter and with any other
+// non-ASCII character that is not a blank or a currency sign ("😀:fun", "→:in").
 func (l *Lexer) isAccountStartRune(r rune) bool {
-	return unicode.IsLetter(r)
+	if unicode.IsLetter(r) {
+		return true
+	}
+	return r >= utf8.RuneSelf && r != utf8.RuneError && !unicode.IsSpace(r) && !unicode.Is(unicode.Sc, r)
 }
 
 func (l *Lexer) isCurrencySymbol(r rune) bool {
